@@ -203,7 +203,7 @@ class _Inf:
 
 
 INF = _Inf()
-CTX = dict(env=None, ax=None, steps=1, T=None, dts={}, si=None, si_inline=None, installed=False)
+CTX = dict(env=None, ax=None, nz={}, steps=1, T=None, dts={}, si=None, si_inline=None, installed=False)
 
 
 def _axiom(t):
@@ -260,7 +260,19 @@ def _install_sym():
     for nm in ('one_pop', 'two_pops', 'three_pops'):
         shims.set_attr(Integration, nm, wrap(getattr(Integration, nm)))
 
-    oexp, opow = S.Sym.exp, S.Sym.__pow__
+    oexp, opow, odiv = S.Sym.exp, S.Sym.__pow__, S.Sym._div
+
+    def div(a, b):
+        # x / x -> 1 (syntactically identical non-constant terms); "x != 0" becomes an obligation of the path, so
+        # the simplification never hides a division by zero
+        if a.c is None and b.c is None and z3.eq(a.t, b.t):
+            env = CTX['env']
+            if env is not None and env.symbolic and b.t.get_id() not in CTX['nz']:
+                CTX['nz'][b.t.get_id()] = b
+                env.holds('x/x simplified to 1: x != 0 for x = %s' % str(b.t)[:60], b != 0)
+            return S.Sym(c=Fr(1))
+        return odiv(a, b)
+    S.Sym._div = staticmethod(div)
 
     def exp(s):
         r = oexp(s)
@@ -269,6 +281,8 @@ def _install_sym():
         return r
 
     def pow_(s, o, mod=None):
+        if s.c is not None and s.c == 1:
+            return S.Sym(c=Fr(1))          # 1 ** y = 1 for every real y
         r = opow(s, o)
         if isinstance(r, S.Sym) and r.c is None and z3.is_app(r.t) and r.t.decl().name() == 'POW':
             _axiom(z3.Implies(r.t.arg(0) > 0, r.t > 0))
@@ -289,6 +303,7 @@ def _activate(si):
 def _begin(env, steps):
     CTX['env'] = env
     CTX['steps'] = steps
+    CTX['nz'] = {}
     if env.symbolic:
         if CTX['ax'] is None or CTX.get('env_id') != id(env):
             CTX['ax'] = {}
@@ -569,6 +584,23 @@ NEST = [
      'nu1 nu2 nu3 nu1 nu2 nu3 T1 T2'),
     ('admix_origin_no_mig', 'nu1 nu2 nu3 T1 T2 f', 'admix_origin_sym_mig_adj', 'nu1 nu2 nu3 0 0 T1 T2 f'),
     ('admix_origin_no_mig', 'nu1 nu2 nu3 T1 T2 f', 'admix_origin_uni_mig_adj', 'nu1 nu2 nu3 0 0 T1 T2 f'),
+    # ---- growth models at constant size (function-of-time drivers / C kernels vs constant-parameter drivers)
+    ('growth', '1 T', 'two_epoch', '1 T'),
+    ('bottlegrowth_1d', 'nu nu T', 'two_epoch', 'nu T'),
+    ('IM', 's s 1-s T m12 m21', 'split_asym_mig', 's 1-s T m12 m21'),
+    ('IM_pre', 'nuPre 0 s nuPre*s nuPre*(1-s) T m12 m21', 'split_asym_mig', 'nuPre*s nuPre*(1-s) T m12 m21'),
+    ('founder_nomig', 's T s', 'vic_no_mig', 'T s'),
+    ('founder_sym', 's m T s', 'sym_mig', '1-s s m T'),
+    ('founder_asym', 's m12 m21 T s', 'asym_mig', '1-s s m12 m21 T'),
+    ('founder_nomig_admix_early', 's T s f', 'vic_no_mig_admix_early', 'T s f'),
+    ('founder_nomig_admix_late', 's T s f', 'vic_no_mig_admix_late', 'T s f'),
+    ('founder_nomig_admix_two_epoch', 's T1 T2 s f', 'vic_two_epoch_admix', 'T1 T2 s f'),
+    ('out_of_africa', 'nuAf nuB nuEu nuEu nuAs nuAs mAfB mAfEu mAfAs mEuAs 0 TB TEuAs', 'split_symmig_all',
+     'nuAf nuB nuEu nuAs mAfB mAfEu mEuAs mAfAs TB TEuAs'),
+    ('out_of_africa', 'nuAf nuB nuEu nuEu nuAs nuAs mAfB mAfEu mAfAs mEuAs 0 0 T', 'sim_split_sym_mig_all',
+     'nuAf nuEu nuAs mAfEu mEuAs mAfAs T'),
+    ('growth_sel', '1 T gamma', 'two_epoch_sel', '1 T gamma'),
+    ('IM_sel', 's s 1-s T m12 m21 gamma1 gamma2', 'split_asym_mig_sel', 's 1-s T m12 m21 gamma1 gamma2'),
     # ---- demography + selection
     ('equil', '0', 'snm_1d', ''),
     ('two_epoch_sel', 'nu T 0', 'two_epoch', 'nu T'),
